@@ -35,6 +35,11 @@ pub struct VerifObs {
     pub tcp_sent: u32,
     pub group_members: usize,
     pub children: usize,
+    pub target_pid: u64,
+    /// what the target actor was handed (kind/variant/args/metadata), in order
+    pub target_log: Vec<String>,
+    /// node frames this session was asked to send back (the reply task of a Call)
+    pub session_frames: Vec<String>,
 }
 
 struct VerifNodeServer {
@@ -77,7 +82,9 @@ impl Actor for VerifNodeServer {
     }
 }
 
-struct VerifSessionActor;
+struct VerifSessionActor {
+    frames: Arc<Mutex<Vec<String>>>,
+}
 
 #[cfg_attr(feature = "async-trait", ractor::async_trait)]
 impl Actor for VerifSessionActor {
@@ -85,6 +92,19 @@ impl Actor for VerifSessionActor {
     type State = ();
     type Arguments = ();
     async fn pre_start(&self, _myself: ActorRef<Self::Msg>, _: ()) -> Result<Self::State, ActorProcessingErr> {
+        Ok(())
+    }
+    async fn handle(&self, _myself: ActorRef<Self::Msg>, message: Self::Msg, _state: &mut Self::State) -> Result<(), ActorProcessingErr> {
+        if let crate::node::NodeSessionMessage::SendMessage(nm) = message {
+            use node_protocol::node_message::Msg;
+            let line = match nm.msg {
+                Some(Msg::Reply(r)) => format!("Reply/to={}/tag={}/what={:?}", r.to, r.tag, r.what),
+                Some(Msg::Call(c)) => format!("Call/to={}/tag={}", c.to, c.tag),
+                Some(Msg::Cast(c)) => format!("Cast/to={}", c.to),
+                None => "None".to_string(),
+            };
+            self.frames.lock().unwrap().push(line.replace([' ', ','], ""));
+        }
         Ok(())
     }
     async fn handle_supervisor_evt(&self, _myself: ActorRef<Self::Msg>, _message: SupervisionEvent, _state: &mut Self::State) -> Result<(), ActorProcessingErr> {
@@ -112,14 +132,18 @@ impl Actor for VerifTcp {
     }
 }
 
-struct VerifRemotable;
+struct VerifRemotable(String, Option<ractor::RpcReplyPort<Vec<u8>>>);
 impl ractor::Message for VerifRemotable {
     fn serializable() -> bool {
         true
     }
     fn deserialize(message: SerializedMessage) -> Result<Self, ractor::message::BoxedDowncastErr> {
         match message {
-            SerializedMessage::Cast { .. } | SerializedMessage::Call { .. } => Ok(Self),
+            SerializedMessage::Cast { variant, args, metadata } => Ok(Self(format!("Cast/variant={variant}/args={args:?}/meta={metadata:?}").replace([' ', ','], ""), None)),
+            SerializedMessage::Call { variant, args, reply, metadata } => Ok(Self(
+                format!("Call/variant={variant}/args={args:?}/meta={metadata:?}/timeout={}", reply.get_timeout().map(|d| d.as_millis() as i64).unwrap_or(-1)).replace([' ', ','], ""),
+                Some(reply),
+            )),
             SerializedMessage::CallReply(_, _) => Err(ractor::message::BoxedDowncastErr),
         }
     }
@@ -127,21 +151,40 @@ impl ractor::Message for VerifRemotable {
 struct VerifPlain;
 impl ractor::Message for VerifPlain {}
 
+trait VerifDescribe {
+    fn describe(self) -> String;
+}
+impl VerifDescribe for VerifRemotable {
+    fn describe(self) -> String {
+        if let Some(port) = self.1 {
+            let _ = port.send(vec![42]);
+        }
+        self.0
+    }
+}
+impl VerifDescribe for VerifPlain {
+    fn describe(self) -> String {
+        "plain".to_string()
+    }
+}
+
 struct VerifTarget<M> {
     received: Arc<AtomicU32>,
+    log: Arc<Mutex<Vec<String>>>,
     _m: std::marker::PhantomData<fn() -> M>,
 }
 
 #[cfg_attr(feature = "async-trait", ractor::async_trait)]
-impl<M: ractor::Message> Actor for VerifTarget<M> {
+impl<M: ractor::Message + VerifDescribe> Actor for VerifTarget<M> {
     type Msg = M;
     type State = ();
     type Arguments = ();
     async fn pre_start(&self, _myself: ActorRef<Self::Msg>, _: ()) -> Result<Self::State, ActorProcessingErr> {
         Ok(())
     }
-    async fn handle(&self, _myself: ActorRef<Self::Msg>, _message: Self::Msg, _state: &mut Self::State) -> Result<(), ActorProcessingErr> {
+    async fn handle(&self, _myself: ActorRef<Self::Msg>, message: Self::Msg, _state: &mut Self::State) -> Result<(), ActorProcessingErr> {
         self.received.fetch_add(1, AtomicOrdering::SeqCst);
+        self.log.lock().unwrap().push(message.describe());
         Ok(())
     }
 }
@@ -220,15 +263,17 @@ pub async fn verif_session_step(
             let _ = h.await;
         }
     }
-    let (session_actor, session_handle) = Actor::spawn(None, VerifSessionActor, ()).await.unwrap();
+    let frames = Arc::new(Mutex::new(Vec::new()));
+    let (session_actor, session_handle) = Actor::spawn(None, VerifSessionActor { frames: frames.clone() }, ()).await.unwrap();
     let sent = Arc::new(AtomicU32::new(0));
     let (tcp, tcp_handle) = Actor::spawn(None, VerifTcp { sent: sent.clone() }, ()).await.unwrap();
     let received = Arc::new(AtomicU32::new(0));
+    let target_log = Arc::new(Mutex::new(Vec::new()));
     let (target_cell, target_handle) = if remotable {
-        let (t, h) = Actor::spawn(None, VerifTarget::<VerifRemotable> { received: received.clone(), _m: std::marker::PhantomData }, ()).await.unwrap();
+        let (t, h) = Actor::spawn(None, VerifTarget::<VerifRemotable> { received: received.clone(), log: target_log.clone(), _m: std::marker::PhantomData }, ()).await.unwrap();
         (t.get_cell(), h)
     } else {
-        let (t, h) = Actor::spawn(None, VerifTarget::<VerifPlain> { received: received.clone(), _m: std::marker::PhantomData }, ()).await.unwrap();
+        let (t, h) = Actor::spawn(None, VerifTarget::<VerifPlain> { received: received.clone(), log: target_log.clone(), _m: std::marker::PhantomData }, ()).await.unwrap();
         (t.get_cell(), h)
     };
     let pid = target_cell.get_id().pid();
@@ -275,9 +320,9 @@ pub async fn verif_session_step(
             use node_protocol::node_message::Msg;
             let msg = match kind.as_str() {
                 "None" => None,
-                "Cast" => Some(Msg::Cast(node_protocol::Cast { to: pid, what: vec![], variant: "Cast".to_string(), metadata: None })),
-                "Call/timeout" => Some(Msg::Call(node_protocol::Call { to: pid, tag: 1, what: vec![], timeout_ms: Some(50), variant: "Call".to_string(), metadata: None })),
-                "Call/no-timeout" => Some(Msg::Call(node_protocol::Call { to: pid, tag: 1, what: vec![], timeout_ms: None, variant: "Call".to_string(), metadata: None })),
+                "Cast" => Some(Msg::Cast(node_protocol::Cast { to: pid, what: vec![1, 2], variant: "Cast".to_string(), metadata: Some(vec![9]) })),
+                "Call/timeout" => Some(Msg::Call(node_protocol::Call { to: pid, tag: 77, what: vec![1, 2], timeout_ms: Some(50), variant: "Call".to_string(), metadata: Some(vec![9]) })),
+                "Call/no-timeout" => Some(Msg::Call(node_protocol::Call { to: pid, tag: 77, what: vec![1, 2], timeout_ms: None, variant: "Call".to_string(), metadata: Some(vec![9]) })),
                 "Reply" => Some(Msg::Reply(node_protocol::CallReply { to: VERIF_REMOTE_PID, tag: 1, what: vec![] })),
                 other => panic!("unknown node kind {other}"),
             };
@@ -303,6 +348,9 @@ pub async fn verif_session_step(
         tcp_sent: sent.load(AtomicOrdering::SeqCst),
         group_members: ractor::pg::get_scoped_members(&VERIF_SCOPE.to_string(), &VERIF_GROUP.to_string()).len(),
         children: session_actor.get_children().len(),
+        target_pid: pid,
+        target_log: target_log.lock().unwrap().clone(),
+        session_frames: frames.lock().unwrap().clone(),
     };
     for (_, ra) in state.remote_actors.drain() {
         ra.stop(None);
